@@ -30,7 +30,9 @@ TECHNIQUE = "choice-point exploration: all predicate iteration orders (per set: 
 LEVEL_TEXT = ("The two owned sources of nondeterminism are turned into explicit choice points answered by the explorer: the order in which the DFA "
               "construction sees a predicate set (every assignment of a permutation to each distinct set; and per call, every execution with <= k "
               "deviations) and the order in which os.walk lists directories and files (all permutations); plus all histories of <= n analyses in one "
-              "process compared with fresh-process references. Every explored execution must give identical measurements / reports.")
+              "process compared with fresh-process references; and, at the level of a single matcher step, every reachable configuration x token "
+              "class x every permutation of the state's transitions. Every explored execution must give identical measurements / reports; "
+              "every traversal order and every history runs in a forked child so that process-wide memos cannot mask a difference.")
 LEVEL_NOTE = ("Not all 2^32 seeds are run: every iteration order any seed could induce at the one place where set order reaches behaviour is enumerated instead; "
               "a new order-sensitive place would only be seen by the supplementary real-seed differential (sampling, reported separately).")
 
